@@ -275,6 +275,74 @@ fn dispatch(c1: &str, d1: &[Q], c2: &str, d2: &[Q]) -> Option<Out> {
     }
 }
 
+// ------------------------------------------------------------------ fallible containers (error paths)
+
+#[derive(Debug)]
+struct Boom(usize);
+impl std::fmt::Display for Boom {
+    fn fmt(&self, f: &mut std::fmt::Formatter<'_>) -> std::fmt::Result {
+        write!(f, "boom at {}", self.0)
+    }
+}
+impl std::error::Error for Boom {}
+
+/// a dataset / graph whose iterator yields an error instead of its `fail_at`-th statement
+struct Failing {
+    quads: Vec<Spog<ST>>,
+    fail_at: Option<usize>,
+}
+
+impl Dataset for Failing {
+    type Error = Boom;
+    type Quad<'x> = Spog<&'x ST>;
+    fn quads(&self) -> impl Iterator<Item = Result<Self::Quad<'_>, Boom>> + '_ {
+        self.quads.iter().enumerate().map(move |(i, (spo, g))| {
+            if Some(i) == self.fail_at { Err(Boom(i)) } else { Ok(([&spo[0], &spo[1], &spo[2]], g.as_ref())) }
+        })
+    }
+}
+
+impl Graph for Failing {
+    type Error = Boom;
+    type Triple<'x> = [&'x ST; 3];
+    fn triples(&self) -> impl Iterator<Item = Result<Self::Triple<'_>, Boom>> + '_ {
+        self.quads.iter().enumerate().map(move |(i, (spo, _))| {
+            if Some(i) == self.fail_at { Err(Boom(i)) } else { Ok([&spo[0], &spo[1], &spo[2]]) }
+        })
+    }
+}
+
+fn outcome<E1, E2>(r: Result<bool, sophia_api::source::StreamError<E1, E2>>) -> &'static str
+where
+    E1: std::error::Error,
+    E2: std::error::Error,
+{
+    match r {
+        Ok(true) => "1",
+        Ok(false) => "0",
+        Err(sophia_api::source::StreamError::SourceError(_)) => "source",
+        Err(sophia_api::source::StreamError::SinkError(_)) => "sink",
+    }
+}
+
+/// `isoerr <d|g> <f1> <f2> <quad>* | <quad>*`: both arguments in a fallible container failing at index f (`-` = never);
+/// reply `r12= r21=` with `0`/`1`/`source`/`sink`
+fn exec_err(line: &str) -> String {
+    let mut toks = line.split_whitespace().peekable();
+    toks.next();
+    let (Some(kind), Some(f1), Some(f2)) = (toks.next(), toks.next(), toks.next()) else { return "bad-op".into() };
+    let pf = |s: &str| if s == "-" { Some(None) } else { s.parse::<usize>().ok().map(Some) };
+    let (Some(f1), Some(f2)) = (pf(f1), pf(f2)) else { return "bad-op".into() };
+    let (Some(d1), Some(d2)) = (parse_quads(&mut toks), parse_quads(&mut toks)) else { return "bad-op".into() };
+    let a = Failing { quads: spogs(&d1), fail_at: f1 };
+    let b_ = Failing { quads: spogs(&d2), fail_at: f2 };
+    match kind {
+        "d" => format!("r12={} r21={}", outcome(isomorphic_datasets(&a, &b_)), outcome(isomorphic_datasets(&b_, &a))),
+        "g" => format!("r12={} r21={}", outcome(isomorphic_graphs(&a, &b_)), outcome(isomorphic_graphs(&b_, &a))),
+        _ => "bad-op".into(),
+    }
+}
+
 // ------------------------------------------------------------------ wall cap per request
 
 /// generous: the largest generated request costs a few milliseconds; CPU contention cannot stretch that to a minute
@@ -381,6 +449,9 @@ fn parse_quads<'a>(toks: &mut std::iter::Peekable<impl Iterator<Item = &'a str>>
 }
 
 pub fn exec(line: &str) -> String {
+    if line.starts_with("isoerr ") {
+        return exec_err(line);
+    }
     let mut toks = line.split_whitespace().peekable();
     if toks.next() != Some("iso") {
         return "bad-op".into();
@@ -549,6 +620,10 @@ fn shapes() -> Vec<Vec<Q>> {
             q(bn("b0"), i("x:p"), T::Lang("chat".into(), "en".into()), None),
         ],
         vec![q(bn("b0"), i("x:p"), bn("b1"), None), q(bn("b0"), i("x:p"), bn("b2"), None), q(bn("b1"), i("x:q"), bn("b2"), None)],
+        // XOR cancellation: the number of colour classes *decreases* from round 1 to round 2 (3, 2, 2 and 5, 4, 4):
+        // nodes all of whose statements pair up with equal hashes fall back to digest 0 (the model reports mono=0)
+        [(0, 3), (0, 5), (3, 0), (3, 5), (4, 1), (4, 2), (5, 1), (5, 2)].iter().map(|&(a, b)| q(bn(&format!("b{}", a)), i("x:p"), bn(&format!("b{}", b)), None)).collect(),
+        [(0, 4), (0, 7), (1, 6), (2, 4), (2, 7), (3, 7), (5, 7)].iter().map(|&(a, b)| q(bn(&format!("b{}", a)), i("x:p"), bn(&format!("b{}", b)), None)).collect(),
     ]
 }
 
@@ -581,8 +656,22 @@ fn render_beta(beta: &BTreeMap<String, String>) -> String {
 }
 
 fn emit(ctx: &mut GenCtx, kind: &str, beta: &BTreeMap<String, String>, d1: &[Q], d2: &[Q]) {
+    emit_in(ctx, kind, beta, d1, d2, false)
+}
+
+/// list-like containers (they can hold one statement several times)
+const LIST_D: &[&str] = &["vec", "arc", "dgspo", "slice"];
+const LIST_G: &[&str] = &["gvec", "garc", "grc"];
+
+fn emit_in(ctx: &mut GenCtx, kind: &str, beta: &BTreeMap<String, String>, d1: &[Q], d2: &[Q], list_only: bool) {
     let graph_ok = d1.iter().chain(d2.iter()).all(|q| q.g.is_none());
-    let (c1, c2) = pick_containers(&mut ctx.rng, graph_ok);
+    let (c1, c2) = if !list_only {
+        pick_containers(&mut ctx.rng, graph_ok)
+    } else if graph_ok && ctx.rng.chance(1, 2) {
+        (*ctx.rng.pick(LIST_G), *ctx.rng.pick(LIST_G))
+    } else {
+        (*ctx.rng.pick(LIST_D), *ctx.rng.pick(LIST_D))
+    };
     let qs = |d: &[Q]| d.iter().map(|q| q.render()).collect::<Vec<_>>().join(" ");
     ctx.stats.bump(&format!("kind.{}", kind));
     ctx.stats.bump(&format!("container.{}", c1));
@@ -732,6 +821,46 @@ fn variants(ctx: &mut GenCtx, gen_: &G7, d: &[Q], graph_only: bool) {
         // the relabelled copy is the base of the one-edit variants
         if keep_nested {
             continue;
+        }
+        // 1b. list-like containers holding a statement several times (a `Vec` is a `Dataset`; nothing in
+        // isomorphic_datasets turns it into a set): copies with the same repetitions must answer true, a
+        // different number of repetitions is a different size, repetitions of another statement a different
+        // multiset of blanked-out statements
+        if !d.is_empty() {
+            let with_dups = |r: &mut Rng, base: &[Q], which: usize| {
+                let mut v = base.to_vec();
+                for _ in 0..1 + r.below(2) {
+                    let at = r.below(v.len() + 1);
+                    v.insert(at, base[which].clone());
+                }
+                v
+            };
+            let i = ctx.rng.below(d.len());
+            let d1 = with_dups(&mut ctx.rng, d, i);
+            let mut c: Vec<Q> = d1.iter().map(|q| relabel(q, &beta)).collect();
+            shuffle(&mut ctx.rng, &mut c);
+            emit_in(ctx, "dup_copy", &beta, &d1, &c, true);
+            emit_in(ctx, "dup_vs_once", &beta, &d1, &d2, true);
+            // one more repetition on the other side
+            let mut c3 = c.clone();
+            let at = ctx.rng.below(c3.len() + 1);
+            c3.insert(at, relabel(&d[i], &beta));
+            emit_in(ctx, "dup_mult", &beta, &d1, &c3, true);
+            if d.len() >= 2 {
+                let mut j = ctx.rng.below(d.len() - 1);
+                if j >= i {
+                    j += 1;
+                }
+                // the same number of statements, but another one repeated
+                let mut e = d.to_vec();
+                for _ in 0..d1.len() - d.len() {
+                    let at = ctx.rng.below(e.len() + 1);
+                    e.insert(at, d[j].clone());
+                }
+                let mut e: Vec<Q> = e.iter().map(|q| relabel(q, &beta)).collect();
+                shuffle(&mut ctx.rng, &mut e);
+                emit_in(ctx, "dup_other", &beta, &d1, &e, true);
+            }
         }
         // 2. one ground term changed
         let mut e = d2.clone();
@@ -972,6 +1101,26 @@ pub fn generate(ctx: &mut GenCtx) {
             ctx.stats.bump("generalized");
         }
         variants(ctx, &gen_, &d, graph_only);
+        // error paths: fallible containers failing at some index (or beyond the end = never)
+        if i % 6 == 1 {
+            let qs = |d: &[Q]| d.iter().map(|q| q.render()).collect::<Vec<_>>().join(" ");
+            let pf = |r: &mut Rng, n: usize| match r.below(3) {
+                0 => "-".to_string(),
+                1 => format!("{}", r.below(n + 1)),
+                _ => format!("{}", n + r.below(2)),
+            };
+            let beta = random_beta(&mut ctx.rng, &d, false);
+            let mut d2: Vec<Q> = d.iter().map(|q| relabel(q, &beta)).collect();
+            shuffle(&mut ctx.rng, &mut d2);
+            if ctx.rng.chance(1, 3) && !d2.is_empty() {
+                d2.pop();
+            }
+            let k = if graph_only && ctx.rng.chance(1, 2) { "g" } else { "d" };
+            let (f1, f2) = (pf(&mut ctx.rng, d.len()), pf(&mut ctx.rng, d2.len()));
+            ctx.stats.bump(&format!("errpath.{}.{}{}", k, if f1 == "-" { "ok" } else { "f" }, if f2 == "-" { "ok" } else { "f" }));
+            let dd: Vec<Q> = if k == "g" { d.clone() } else { d.clone() };
+            ctx.emit(&format!("isoerr {} {} {} {} | {}", k, f1, f2, qs(&dd), qs(&d2)));
+        }
         // two unrelated datasets
         if i % 4 == 0 {
             let d2 = dedup((0..nq).map(|_| gen_.quad(&mut ctx.rng, graph_only)).collect());
